@@ -605,9 +605,24 @@ Definition handle_multiget (w : w_multiget) : res outcome :=
   do dr <- data_request_of (wm_prop w);
   Ok (CallsGet (map (fun p => (p, dr)) (wm_hrefs w))).
 
-(** handleReport, server.go:87 (with reportReq.UnmarshalXML, elements.go:190), for a
-    request whose Content-Type is XML and whose body parses to the element [t] *)
-Definition handle_report (up : string -> option string) (path : string) (t : xtree) : res outcome :=
+(** unqualifiedAttrReader (elements.go): the token stream reportReq.UnmarshalXML decodes
+    from carries, at every depth, only the attributes that are in no namespace.  That
+    leaves out the declarations xmlns:p="..." (Go gives them the name space "xmlns") and
+    attributes of foreign namespaces; a default-namespace declaration xmlns="..." has an
+    empty name space and stays (no field is called xmlns). *)
+Definition unqualified (a : attr) : bool := String.eqb (fst (fst a)) "".
+Definition strip_attrs (a : list attr) : list attr := filter unqualified a.
+
+Fixpoint strip_qualified (t : xtree) : xtree :=
+  match t with
+  | Elem n a k => Elem n (strip_attrs a) (map strip_qualified k)
+  | _ => t
+  end.
+
+(** handleReport, server.go:87, after the request body has been tokenised: the switch of
+    reportReq.UnmarshalXML on the root name, Decode into the chosen struct, handleQuery /
+    handleMultiget.  [t] is what the decoder is given. *)
+Definition handle_decoded (up : string -> option string) (path : string) (t : xtree) : res outcome :=
   match t with
   | Elem n a k =>
     if qname_eqb n (NS_CARD, "addressbook-query") then
@@ -617,6 +632,12 @@ Definition handle_report (up : string -> option string) (path : string) (t : xtr
     else bad_request
   | _ => bad_request
   end.
+
+(** handleReport for a request whose Content-Type is XML and whose body parses to the
+    element [t]: reportReq.UnmarshalXML decodes through unqualifiedAttrReader.  (The root
+    switch looks at the element name only, which the reader leaves alone.) *)
+Definition handle_report (up : string -> option string) (path : string) (t : xtree) : res outcome :=
+  handle_decoded up path (strip_qualified t).
 
 (** the two client entry points down to the tree of the body they send *)
 Definition client_query_doc (q : Query) : res xtree :=
@@ -1196,13 +1217,13 @@ Definition limit_fits (r : request) : bool :=
   end.
 
 (* ------------------------------------------------------------------------- *)
-(** * Known finding C09-nsdecl-as-attribute.
-      encoding/xml matches an attribute field whose tag names no namespace by local
-      name only, and namespace declarations are in the attribute list: a
-      declaration [xmlns:test="…"], [xmlns:name="…"], [xmlns:match-type="…"] … on a
-      filter element is taken for the attribute itself.  [collides] delimits the
-      documents in which that can happen.  (The address-data request is immune:
-      RawXMLValue drops the declarations when it captures the DAV:prop content.) *)
+(** * The region of the repaired defect "namespace declaration taken for an attribute".
+      encoding/xml matches an attribute field whose tag names no namespace by local name
+      only, and namespace declarations are in the attribute list: before the repair a
+      declaration [xmlns:test="..."], [xmlns:name="..."], [xmlns:match-type="..."] on a
+      filter element was taken for the attribute itself.  [collides] delimits the
+      documents in which that could happen; it is kept as a statistic of the input
+      distribution and as a hypothesis of the lemmas about [handle_decoded]. *)
 
 Definition attr_fields (n : qname) : list string :=
   if qname_eqb n (C "filter") then ["test"]
@@ -1415,13 +1436,6 @@ Definition server_spec_ok (up : string -> option string) (path : string)
     (if enum_bad x then is_4xx (so_status o) && no_calls o
      else is_4xx (so_status o) || N.eqb (so_status o) 207)
   end.
-
-(** selector of the known finding: the document carries a colliding namespace
-    declaration, the implementation did exactly what the (faithful) model says, and
-    that does not meet the specification *)
-Definition kf_nsdecl (up : string -> option string) (path : string)
-    (x : x_request) (d : xtree) (o : server_obs) : bool :=
-  collides d && server_agrees up path d o && negb (server_spec_ok up path x d o).
 
 (** conversions used by the oracle's parser (decimal atoms -> N / Z) *)
 Definition n_of_dec (s : string) : option N := digits_to_N s.
